@@ -314,6 +314,76 @@ func c14(c *Ctx) {
 			}
 		}
 	}
+	// ---- W7 a failed protection change is reported as such: on the side of an `errno ==/!= 0` test where the errno is zero
+	// nothing panics with it or returns it (the inverted test treats every successful mprotect as a failure and lets real
+	// failures through, so the write then faults or pages stay writable)
+	nErrno := 0
+	for _, f := range p.FuncsIn(memPkg) {
+		if f.Blocks == nil {
+			continue
+		}
+		nInF := 0
+		eachInstr(f, func(i ssa.Instruction) {
+			iff, ok := i.(*ssa.If)
+			if !ok {
+				return
+			}
+			bo, ok := iff.Cond.(*ssa.BinOp)
+			if !ok || (bo.Op != token.EQL && bo.Op != token.NEQ) {
+				return
+			}
+			var e ssa.Value
+			if c0, ok := constInt(bo.Y); ok && c0 == 0 && strings.HasSuffix(bo.X.Type().String(), "syscall.Errno") {
+				e = bo.X
+			} else if c0, ok := constInt(bo.X); ok && c0 == 0 && strings.HasSuffix(bo.Y.Type().String(), "syscall.Errno") {
+				e = bo.Y
+			}
+			if e == nil {
+				return
+			}
+			nErrno++
+			nInF++
+			zeroSucc := iff.Block().Succs[0]
+			if bo.Op == token.NEQ {
+				zeroSucc = iff.Block().Succs[1]
+			}
+			bad := ""
+			if len(zeroSucc.Preds) == 1 {
+				isE := func(v ssa.Value) bool { return v == e }
+				for _, b := range f.Blocks {
+					if b != zeroSucc && !zeroSucc.Dominates(b) {
+						continue
+					}
+					for _, ins := range b.Instrs {
+						switch x := ins.(type) {
+						case *ssa.Panic:
+							if dependsOn(x.X, isE) || varargsDependOn(x.X, isE) {
+								bad = "panics with it at " + p.Pos(posOf(ins))
+							}
+							if mi, ok := x.X.(*ssa.MakeInterface); ok {
+								if cl, ok := mi.X.(*ssa.Call); ok {
+									for _, a := range cl.Call.Args {
+										if varargsDependOn(a, isE) {
+											bad = "panics with it at " + p.Pos(posOf(ins))
+										}
+									}
+								}
+							}
+						case *ssa.Return:
+							for _, rv := range x.Results {
+								if dependsOn(rv, isE) {
+									bad = "returns it at " + p.Pos(posOf(ins))
+								}
+							}
+						}
+					}
+				}
+			}
+			r.Check(bad == "", "C14.W7", "errno of a protection change reported only when non-zero in "+shortName(f)+" #"+itoa2(nInF), p.Pos(posOf(iff)), "the zero side neither panics with nor returns the errno",
+				"where the errno is zero the code "+bad+": the sense of the test is inverted — a successful mprotect aborts the patch and a failed one is ignored")
+		})
+	}
+	r.Stat("errno_tests", nErrno)
 	// ---- W5 page loops
 	for _, f := range p.FuncsIn(memPkg) {
 		pcs := protCallsIn(p, f, nil)
